@@ -23,6 +23,7 @@ func runC02(r *lib.Run) {
 			opt.EmptyLeafLists = i%5 == 0
 			opt.OrderedSiblings = i%7 == 0
 			opt.ZeroLenBinary = true
+			opt.PreciseDecimals = true
 			if skip(cfg, i) {
 				continue
 			}
